@@ -94,6 +94,7 @@ class PathFacts:
         self.calls = []         # (block, call tree, terminator)
         self.ret = None         # tree of the last whole assignment to _0
         self.stores = []        # (place json, rvalue tree, line)
+        self.infeasible = False
         body_ = body
         # environment: for locals assigned in several places, the last whole assignment on this path
         env = {}
@@ -126,8 +127,16 @@ class PathFacts:
             elif t['t'] == 'switch' and i + 1 < len(self.path):
                 nxt = self.path[i + 1]
                 vals = [v for v, bb in t['targets'] if bb == nxt]
-                self.decisions.append((body_.tree_of_operand(t['discr'], 0, env), vals if vals else 'otherwise', b,
-                                       [v for v, _ in t['targets']]))
+                dtree = body_.tree_of_operand(t['discr'], 0, env)
+                allv = [v for v, _ in t['targets']]
+                self.decisions.append((dtree, vals if vals else 'otherwise', b, allv))
+                x = dtree
+                while isinstance(x, tuple) and x and x[0] in ('ref', 'deref'):
+                    x = x[1]
+                if isinstance(x, tuple) and x and x[0] == 'const' and isinstance(x[2], (bool, int)) and not isinstance(x[2], float):
+                    c = int(x[2])
+                    if (vals and c not in vals) or (not vals and c in allv):
+                        self.infeasible = True      # the path itself fixed this value to a constant that contradicts the branch
         last = self.path[-1]
         self.returns = body_.blocks[last]['term']['t'] == 'return'
 
@@ -160,4 +169,7 @@ class PathFacts:
 
 
 def all_path_facts(body, limit=20000):
-    return [PathFacts(body, p) for p in enumerate_paths(body, limit)]
+    """facts of every acyclic path, without the paths that contradict a constant they themselves assign (an inlined helper's `return false`
+    followed by the caller's `true` branch)"""
+    out = [PathFacts(body, p) for p in enumerate_paths(body, limit)]
+    return [pf for pf in out if not pf.infeasible]
